@@ -83,6 +83,7 @@ func (h *ServerHandler) handleUserCommand(ctx context.Context, ltx lcontext.LCon
 	case "grep", "cat":
 		command := newReadCommand(h, omode.CatClient)
 		readerDone := h.aggregateReaderStarted()
+		verifhook.At("handler.reader_started", h)
 		go func() {
 			command.Start(ctx, ltx, argc, args, 1)
 			readerDone()
@@ -91,6 +92,7 @@ func (h *ServerHandler) handleUserCommand(ctx context.Context, ltx lcontext.LCon
 	case "tail":
 		command := newReadCommand(h, omode.TailClient)
 		readerDone := h.aggregateReaderStarted()
+		verifhook.At("handler.reader_started", h)
 		go func() {
 			command.Start(ctx, ltx, argc, args, 10)
 			readerDone()
